@@ -7,7 +7,7 @@ REPO = os.environ.get('HEPH_REPO', '/repo')
 
 ID = 'C06'
 LEVEL = 'proof'
-SIDECARS = ['types_sub']
+SIDECARS = ['types_sub', 'types_ctor']
 _T = 'src.ir.types.'
 FUNCTIONS = [_T + f for f in (
     'Type.get_supertypes', 'Builtin.is_subtype', 'SimpleClassifier.is_subtype', 'TypeParameter.is_subtype',
@@ -15,7 +15,8 @@ FUNCTIONS = [_T + f for f in (
     'ParameterizedFunction.is_subtype', 'NothingType.is_subtype', 'Type.is_assignable', 'Type.not_related',
     'Variance.is_covariant', 'Variance.is_contravariant', 'Variance.is_invariant',
     'TypeParameter.is_covariant', 'TypeParameter.is_contravariant', 'TypeParameter.is_invariant',
-    'Type.is_parameterized', 'ParameterizedType.is_parameterized')] + [
+    'Type.is_parameterized', 'ParameterizedType.is_parameterized', 'TypeConstructor.is_subtype',
+    '_type_var_occurs_in')] + [
     'src.ir.builtins.NothingType.is_subtype', 'src.ir.kotlin_types.NothingType.is_subtype',
     'src.ir.scala_types.NothingType.is_subtype'] + [
     'src.ir.java_types.%s.is_assignable' % c for c in ('IntegerType', 'ShortType', 'LongType', 'ByteType', 'FloatType',
@@ -36,9 +37,11 @@ TRUSTED = [
 ASSUMPTIONS = [
     'soundness only is proved; exactness / reflexivity / transitivity on ground class types is the bounded part '
     '(exhaustive comparison with an executable declarative relation on a small universe)',
-    'TypeConstructor.is_subtype (bare generic class against a type) is not under contract yet',
+    'a bare generic class (TypeConstructor) stands for all of its instantiations: rules con-plain / con-args (no type '
+    'parameter of the class occurs, at any depth, in the matched declared supertype); Occurs is a recursive definition '
+    'over the finite type structure and _type_var_occurs_in is proved equal to it',
 ]
-NOT_UNDER_CONTRACT = ['src.ir.types.TypeConstructor.is_subtype', 'src.ir.types.ParameterizedType.is_assignable',
+NOT_UNDER_CONTRACT = ['src.ir.types.ParameterizedType.is_assignable',
                       'the __eq__ overrides (PyEq is uninterpreted)', 'src.ir.types.AbstractType.is_subtype (raises; no instances)']
 
 
